@@ -1,8 +1,46 @@
 """C08 — graceful exhaustion."""
+import re
+import vlib, gen, hist
 from props import histprop
 PID = "C08"
 MIX = [("full", {}), ("extfull", {}), ("dircfull", {}), ("full", {})]
 RULE = ('volumes filled to within 0..150 blocks of full (DD floppy holding a directory, an old file and a filler), then every allocation site hit at exhaustion: data block at each alignment, extension block, entry, cache block; short counts must equal what was stored, earlier content unchanged, image valid, exact accounting, refill')
 def run(res):
-    histprop.run(res, PID, MIX, {"C01", "C02", "C03", "C04", "C05", "C07", "BM"}, RULE, nquick=40, nthorough=800)
+    histprop.run(res, PID, MIX, {"C01", "C02", "C03", "C04", "C05", "C07", "BM", "MF"}, RULE, nquick=40, nthorough=800)
+    if res.violations: return
+    # exhaustion on a partition that does not start at block 0 (the reference models of the history driver know one volume at
+    # block 0 only): the call that cannot complete has to RETURN (no crash), a short count must equal the size reported, the
+    # refill must reach the same size, earlier content must read back; C and model compared trace-exact
+    exe = vlib.build_harness("asan")
+    n = 8 if res.tier == "quick" else 120
+    sp = [gen.gen_rdbfull(vlib.rng_for(res.seed, f"C08rdb/{i}")) for i in range(n)]
+    from concurrent.futures import ThreadPoolExecutor
+    def one(ops): return (ops,) + hist.run_plain(exe, ops, timeout=120)
+    bad, ties = [], []
+    with ThreadPoolExecutor(8) as ex:
+        for ops, cb, paths, tie, san, crash, fault in ex.map(one, sp):
+            if san or crash:
+                k = min(len(cb), len(ops) - 1)
+                bad.append((ops[:k + 1], f"exhaustion on a partition with a non-zero first block does not fail cleanly: {san or crash} at '{ops[k]}'")); continue
+            if tie or fault: ties.append((ops, tie, fault))
+            sizes = []
+            for i, o in enumerate(ops):
+                if o.startswith("write 1 ") and i + 1 < len(cb) and cb[i] and ops[i + 1] == "stat 1":
+                    m = re.search(r"n=(\d+)", cb[i][0]); m2 = re.search(r"size=(\d+)", cb[i + 1][0] if cb[i + 1] else "")
+                    if m and m2:
+                        if int(m.group(1)) != int(m2.group(1)) and "keep" not in ops[i - 1]: bad.append((ops[:i + 2], f"'{o}' returned {m.group(1)} but the file holds {m2.group(1)} bytes"))
+                        sizes.append(int(m2.group(1)))
+            big = [x for x in sizes if x > 3000]
+            if len(big) == 2 and big[0] != big[1]: bad.append((ops, f"after deleting, the refill reached {big[1]} bytes, the first fill {big[0]}"))
+            kr = next((i for i, o in enumerate(ops) if o == "read 3 10000"), None)
+            mk = re.search(r"n=(\d+)", cb[kr][0]) if kr is not None and cb[kr] else None
+            if kr is not None and cb[kr] and not (mk and 3000 <= int(mk.group(1)) <= 5000): bad.append((ops[:kr + 1], f"an earlier file no longer reads back on the full partition: {cb[kr][0][:60]}"))
+    res.cov["partition_exhaustion_histories"] = n
+    if bad:
+        ops, m = bad[0]
+        res.violation(f"C08: {m}", dict(kind="history", ops=ops, complaint=m), True)
+    elif ties:
+        ops, tie, fault = ties[0]
+        res.violation(f"correspondence broken on {len(ties)} of {n} partition-exhaustion histories: {fault or (tie[0], ops[tie[0]] if tie[0] < len(ops) else '?')}",
+                      dict(kind="correspondence", ops=ops), False)
 replay = histprop.replay
